@@ -18,6 +18,6 @@ CONSTANTS
   HostileSteps = 1
   AllScopes = TRUE
 INVARIANTS FTypeOK
-PROPERTIES RejectedNeverReachesBackend ListingFiltered ErrorIsPolicyError AllowedIsTransparent SelectErrorKinds ConsultationsExact FailedListingIsPrefix NestIsConjunction NestOfOne
+PROPERTIES RejectedNeverReachesBackend ListingFiltered ErrorIsPolicyError AllowedIsTransparent SelectErrorKinds ConsultationsExact FailedListingIsPrefix NestIsConjunction NestOfOne BackendFaultIsResult ScriptedListingFiltered
 VIEW FView
 CHECK_DEADLOCK FALSE
